@@ -701,6 +701,14 @@ class PhrasePlugin(Plugin):
             sc = self.textstartchar
             if parser.schema and fieldname in parser.schema:
                 field = parser.schema[fieldname]
+                if field.self_parsing() and not (field.format and
+                                                 field.format.supports("positions")):
+                    # The field interprets query text itself and can't do
+                    # phrases (numbers, dates, booleans), so treat the quoted
+                    # text as a single value
+                    q = parser.term_query(fieldname, text, parser.termclass,
+                                          boost=self.boost)
+                    return attach(q, self)
                 if field.analyzer:
                     # We have a field with an analyzer, so use it to parse
                     # the phrase into tokens
